@@ -96,3 +96,24 @@ func TestC15CloseWithQueuedEventLeaksListener(t *testing.T) {
 		t.Errorf("a closed listener is still registered: it received %d more event(s) after Close()", n)
 	}
 }
+
+// With a history length of 0 (INBUCKET_WEB_MONITORHISTORY=0) the hub has no ring, and Dispatch /
+// Delete skip the relay altogether: attached monitors never see any event.
+func TestC15NoRelayWithoutHistory(t *testing.T) {
+	hub := msghub.New(0, extension.NewHost())
+	ctx, cancel := context.WithCancel(context.Background())
+	defer cancel()
+	go hub.Start(ctx)
+	l := newMsgListenerV2(hub, "")
+	if !c15sync(t, hub, "setup") {
+		return
+	}
+	hub.Dispatch(event.MessageMetadata{Mailbox: "box", ID: "1"})
+	hub.Delete("box", "1")
+	if !c15sync(t, hub, "after dispatch") {
+		return
+	}
+	if n := len(l.c); n != 2 {
+		t.Errorf("history length 0: listener received %d of the 2 events (stored, deleted)", n)
+	}
+}
